@@ -24,7 +24,10 @@ SPECIAL = ["\xa0", "\xad", "​", "‮", "﻿", "͸", "\U000e0001", "\x85", " ",
 HOSTS = [("reg", "example.com"), ("idn", "bücher.example"), ("idn2", "例え.jp"), ("ipv4", "127.0.0.1"), ("ipv6", "::1"), ("ipv6zone", "fe80::1%eth0"),
          ("fqdn", "example.com."), ("idn-fqdn", "bücher.example."),
          # names only the IDNA 2003 fallback codec accepts (symbols, '_' or '--' next to an IDN label, bidi-rule violations): still shown decoded
-         ("idn2003-symbol", "☃.net"), ("idn2003-underscore", "_sip.bücher.de"), ("idn2003-hyphens", "bü--cher.de"), ("idn2003-bidi", "٣.bücher.de"), ("idn2003-emoji", "i❤.ws")]
+         ("idn2003-symbol", "☃.net"), ("idn2003-underscore", "_sip.bücher.de"), ("idn2003-hyphens", "bü--cher.de"), ("idn2003-bidi", "٣.bücher.de"), ("idn2003-emoji", "i❤.ws"),
+         # valid IDNA 2008 names whose U-label holds a NON-PRINTABLE joiner (ZWNJ in Persian, ZWJ in Sinhala): a host is never percent-decoded,
+         # so these must be shown as they are
+         ("idn-zwnj", "نامه\u200cای.com"), ("idn-zwj", "ශ්\u200dරී.com")]
 DEFAULT = {"http": 80, "https": 443, "ws": 80, "wss": 443, "ftp": 21}
 
 # parts also run by 4 threads at once in one process (runner adds the jobs; see yv/ctx.py Ctx.threaded)
